@@ -11,6 +11,41 @@ TB = ("Trusted: Lean 4.33 kernel; axioms of every property theorem printed per r
       "lxml/libxml2 and CPython are modelled, not verified. ")
 
 CLAIMED = {
+    "C06": dict(
+        text="Proof-partial: the evaluator (axis generators by document-order position, node tests with prefix resolution, "
+             "candidate list and per-predicate (position,size) renumbering, per-step and per-expression de-duplication, "
+             "Python value semantics of the predicate operators) is modelled in Lean (Model/XPath/Eval.lean); proved for every "
+             "tree: document order lists each address once and extends the ancestor relation; each axis yields exactly its "
+             "axis relation in axis order (with delb's reading of following/preceding); a step selects a subsequence of its "
+             "axis passing test and predicates, `[k]` is the proximity position; steps compose as unions without duplicates; "
+             "expression results are duplicate-free unions; in_document_order sorts by address (Props/C06.lean). The full "
+             "statement 'equals XPath 1.0' is not a theorem: seven recorded findings show the unchanged evaluator deviates "
+             "beyond the three established deviations. Tie to code: result handle lists (order included) of the real xpath() "
+             "== compiled model for grammar-generated expressions x documents x context nodes x prefix maps; a safe "
+             "sub-grammar is additionally compared with lxml's XPath engine; CSS selectors vs the cssselect translation "
+             "evaluated by lxml.",
+        note=TB + "Reference engine: lxml/libxml2. Known findings (attribute comparison of absent/empty attributes, "
+             "non-literal number predicates, `..`/axes from the document node, node-type tests on the document node, "
+             "attribute functions on non-tag candidates) are excluded from the generated stream and replayed separately.",
+        technique="Lean 4 theorems on the evaluator model (axes, proximity positions, union/dedup, ordering) + differential correspondence + lxml as reference oracle",
+        design="3/C06",
+    ),
+    "C08": dict(
+        text="Proof over a regenerated model: harness/gen_skeleton.py re-derives from /repo's source, on every run, a summary "
+             "of every function's use of altered_default_filters (generator?, decorated?, yields inside an own frame, "
+             "truthiness tests of parent nodes outside an own frame); Lean decides for these summaries that no function "
+             "yields inside an own frame and that the functions the property lists contain no unguarded ambient read, and "
+             "proves for the stack machine that balanced segments restore the stack, that under every interleaving of "
+             "library calls / generator resumptions with client blocks the caller's view is the caller's own, and that "
+             "guarded calls read the same values for every ambient stack (Props/C08.lean). Exploration on the "
+             "implementation: documents x 8 ambient settings x the listed operations compared across settings with "
+             "stack/tree/identity checks, and random schedules over 12 iterator kinds with the stack inspected after every step.",
+        note=TB + "The extractor sees `altered_default_filters` syntactically and flags truthiness of parent-like names; its "
+             "completeness is trusted and cross-checked by the dynamic exploration. 'No side effects on content/identity' is "
+             "checked on the implementation only (functional models cannot mutate).",
+        technique="Lean 4 theorems over translator-generated function summaries (decide) and a stack machine + dynamic exploration of interleavings",
+        design="3/C08",
+    ),
     "C05": dict(
         text="Proof: sibling walking on the slot/chain encoding (models of iterate_children's start, "
              "_fetch_following_sibling and fetch_preceding_sibling for DATA/TAIL/APPENDED text nodes and element wrappers) "
